@@ -65,6 +65,10 @@ func newTokenizer(kind string) tokenizers.ITokenizer {
 		for _, s := range []string{"...", "=:~", "-->", "::=", "≠≠", "<=>", "<!--", "=:~=:~"} {
 			t.SymbolState().Add(s, tokenizers.Symbol)
 		}
+		// single characters with a class of their own (they start no longer symbol)
+		t.SymbolState().Add(";", tokenizers.Special)
+		t.SymbolState().Add("¤", tokenizers.Special)
+		t.SetCharacterState('¤', '¤', t.SymbolState())
 		t.SetCharacterState('≠', '≠', t.SymbolState())
 		t.WordState().SetWordChars('≠', '≠', false) // a symbol character does not continue a word either
 		return t
